@@ -244,6 +244,18 @@ func F2(rc *RC) {
 				dec = append(dec, strings.TrimSuffix(n.Value[i+len(".Decode(&"):], ")"))
 			}
 		}
+		// a parallel assignment (x, y = a, b) installs each value like the single assignments do
+		for _, l := range strings.Split(txt, "\n") {
+			l = strings.TrimSpace(l)
+			if i := strings.Index(l, ") = ("); i > 0 && strings.HasPrefix(l, "(") && strings.HasSuffix(l, ")") {
+				ts, vs := splitArgs(l[1:i]), splitArgs(l[i+len(") = ("):len(l)-1])
+				if len(ts) == len(vs) {
+					for k := range ts {
+						txt += "\n" + ts[k] + " = " + vs[k]
+					}
+				}
+			}
+		}
 		var bad []string
 		if len(dec) != len(wantEnc) {
 			bad = append(bad, fmt.Sprintf("decodes %d values, the encoder sends %d", len(dec), len(wantEnc)))
